@@ -1,7 +1,24 @@
 import CddVerif.Driver.Basic
+import CddVerif.Model.Adhoc
 /-! Driver ops for C17 (line protocol; see Main.lean). Only Mathlib-free imports here. -/
 namespace Driver.C17
-open Lean Driver
+open Lean Driver Adhoc
 
-def ops : List (String × Handler) := []
+def ops : List (String × Handler) := [
+  /- parse_adhoc_doc_for_typ(doc, name, default_is_none) → {"typ": str | null} | {"raises": class name} -/
+  ("c17.adhoc", fun j => do
+    let doc ← getChars j "doc"
+    let name := (getChars j "name").toOption.getD []
+    let b := (getBool j "none").toOption.getD false
+    match adhocStr doc name b with
+    | .ok r => return Json.mkObj [("typ", optStr r)]
+    | .error e => return Json.mkObj [("raises", Json.str e)]),
+  /- SafeAlphabet membership of every character of a string (the model's `safeC`), with the offending characters -/
+  ("c17.safe", fun j => do
+    let s ← getChars j "s"
+    return Json.mkObj [("safe", Json.bool (s.all safeC)), ("bad", str (s.filter (fun c => !safeC c)))]),
+  /- the model's constants survive `S` unchanged -/
+  ("c17.constants", fun _ => do
+    return Json.mkObj [("lossless", Json.bool constantsLossless), ("n", nat resultConstants.length)])
+]
 end Driver.C17
